@@ -70,6 +70,7 @@ def generate(prop, rng):
         # target" (implicit parents are never created for link types other than copy)
         "explicit_dirs": True,
         "jobs": rng.choice([1, 2, None]),
+        "links_arg": rng.random() < 0.6,  # else apply() takes them from odb.cache_types
     }
     evict = []
     if rng.random() < 0.25:
@@ -217,8 +218,8 @@ def execute(sc, ctx):
     old = md5(ibuild(ws, w.localfs), state=state)
     try:
         diff = compare(old, idx, delete=cfg["delete"])
-        apply(diff, ws, w.localfs, onerror=onerror, state=state, links=list(cfg["links"]), jobs=cfg["jobs"],
-              update_meta=False)
+        apply(diff, ws, w.localfs, onerror=onerror, state=state,
+              links=list(cfg["links"]) if cfg.get("links_arg", True) else None, jobs=cfg["jobs"], update_meta=False)
     except Exception as exc:  # noqa: BLE001
         import traceback
 
